@@ -30,7 +30,10 @@ RULE_ADDED = (
               'MiB '
               ' '
               'Round 9: every field of every other command added to each request, well-formed a'
-              's in its home command and malformed in every kind. ')
+              's in its home command and malformed in every kind. '
+              ' '
+              'Round 11: string values with their own first / last characters repeated; brother'
+              ' lists mixing headers and non-headers. ')
 RULE = RULE + " " + RULE_ADDED.strip()
 ASSUMPTIONS = [
     "the reference classifier (pv/oracle/docs_protocol.py) is a reading of docs/protocol.md and "
